@@ -6,6 +6,8 @@ Require Import Yui.Base.Ring Yui.Base.MatF Yui.Base.MatL Yui.Model.Reducer.
 Require Import Yui.Proofs.C08Mat Yui.Proofs.C08Perm Yui.Proofs.C08Tri Yui.Proofs.C08Block Yui.Proofs.C08Step.
 Import ListNotations.
 
+Ltac csplit := repeat match goal with |- _ /\ _ => split end.
+Ltac stp := first [eassumption | reflexivity].
 Ltac sd := solve [dwfs | assumption | autorewrite with ddim; lia | autorewrite with ddim; congruence].
 
 (* ---------- composition algebra ---------- *)
@@ -383,9 +385,21 @@ Section Invariant.
       dr f2 = m - r /\ dc f2 = m /\ dr b2 = m /\ dc b2 = m - r /\
       dr h = n /\ dc h = m /\ dr s = m - r /\ dc s = n - r /\ dwf s /\ r <= m /\ r <= n.
     Proof.
-      destruct a1_facts as (W1 & _ & _).
-      exact (step_dims o L u UL a1 m n r vp vq t sc W1 eq_refl eq_refl Hvp Hvq Htri Hsc).
+      eapply (step_dims o L u UL a1 m n r vp vq t sc); stp.
     Qed.
+
+    Lemma S_fc : dmul o f2 a1 = dmul o s f1.
+    Proof. eapply (step_f_chain o L u UL a1 m n r vp vq t sc); stp. Qed.
+    Lemma S_bc : dmul o a1 b1 = dmul o b2 s.
+    Proof. eapply (step_b_chain o L u UL a1 m n r vp vq t sc); stp. Qed.
+    Lemma S_fb1 : dmul o f1 b1 = did o (n - r).
+    Proof. eapply (step_fb_src o L u UL a1 m n r vp vq t sc); stp. Qed.
+    Lemma S_fb2 : dmul o f2 b2 = did o (m - r).
+    Proof. eapply (step_fb_tgt o L u UL a1 m n r vp vq t sc); stp. Qed.
+    Lemma S_h1 : dadd o (dmul o b1 f1) (dmul o h a1) = did o n.
+    Proof. eapply (step_homotopy_src o L u UL a1 m n r vp vq t sc); stp. Qed.
+    Lemma S_h2 : dadd o (dmul o b2 f2) (dmul o a1 h) = did o m.
+    Proof. eapply (step_homotopy_tgt o L u UL a1 m n r vp vq t sc); stp. Qed.
 
     (* access to the new ghost *)
     Lemma gn'_p : gn g' p = n - r. Proof. cbn [g' gn]. rewrite fupd_neq by lia. apply fupd_eq. Qed.
@@ -404,5 +418,225 @@ Section Invariant.
     Proof. cbn [g' gH]. apply fupd_eq. Qed.
     Lemma gH'_other q : q <> p -> gH g' q = gH g q.
     Proof. intros. cbn [g' gH]. now rewrite fupd_neq. Qed.
+
+    (* the new matrices *)
+    Lemma ms_p : ms p = Some s.
+    Proof. now destruct (update_mats_spec o _ _ _ _ _ _ _ Ems) as (H & _). Qed.
+
+    Lemma ms_other q : q <> p -> S q <> p -> q <> S p -> ms q = mats st q.
+    Proof. destruct (update_mats_spec o _ _ _ _ _ _ _ Ems) as (_ & H & _). apply H. Qed.
+
+    Lemma ms_prev p0 : p = S p0 ->
+      exists a0, mats st p0 = Some a0 /\ dwf a0 /\ dr a0 = n /\ dc a0 = gn g p0 /\
+                 dmul o a1 a0 = dzero o m (dc a0) /\ ms p0 = Some (reduce_mat_rows o a0 vq r).
+    Proof.
+      intros Hp0. destruct (update_mats_spec o _ _ _ _ _ _ _ Ems) as (_ & _ & H & _).
+      specialize (H p0 Hp0). pose proof pM as HpM.
+      destruct (inv_mats st g I p0 ltac:(lia)) as (a0 & Ea0 & W0 & Hr0 & Hc0).
+      rewrite Ea0 in H. destruct H as [Hd H]. exists a0. csplit; try assumption.
+      - destruct a1_facts as (_ & _ & Hn). rewrite Hn, Hr0. now subst p.
+      - apply (inv_cpx st g I p0 a0 a1 Ea0). now rewrite <- Hp0.
+    Qed.
+
+    Lemma ms_next_some : S p < M ->
+      exists a2, mats st (S p) = Some a2 /\ dwf a2 /\ dc a2 = m /\ dr a2 = gn g (S (S p)) /\
+                 dmul o a2 a1 = dzero o (dr a2) n /\ ms (S p) = Some (reduce_mat_cols o a2 vp r).
+    Proof.
+      intros HS. destruct (update_mats_spec o _ _ _ _ _ _ _ Ems) as (_ & _ & _ & H).
+      destruct (inv_mats st g I (S p) HS) as (a2 & Ea2 & W2 & Hr2 & Hc2).
+      rewrite Ea2 in H. destruct H as [Hd H]. exists a2. csplit; try assumption.
+      - destruct a1_facts as (_ & Hm & _). now rewrite Hm.
+      - apply (inv_cpx st g I p a1 a2 Ha Ea2).
+    Qed.
+
+    Lemma ms_next_none : M <= S p -> ms (S p) = None.
+    Proof.
+      intros HS. destruct (update_mats_spec o _ _ _ _ _ _ _ Ems) as (_ & _ & _ & H).
+      now rewrite (inv_none st g I (S p) HS) in H.
+    Qed.
+
+    Lemma S_a0 a0 : dwf a0 -> dr a0 = n -> dmul o a1 a0 = dzero o m (dc a0) ->
+      dmul o f1 a0 = reduce_mat_rows o a0 vq r /\
+      dmul o b1 (reduce_mat_rows o a0 vq r) = a0 /\
+      dmul o s (reduce_mat_rows o a0 vq r) = dzero o (m - r) (dc a0).
+    Proof.
+      intros W0 H0 H10. split; [|split].
+      - eapply (step_a0_f o L u UL a1 m n r vp vq t sc); stp.
+      - eapply (step_a0_b o L u UL a1 m n r vp vq t sc); stp.
+      - eapply (step_complex_src o L u UL a1 m n r vp vq t sc); stp.
+    Qed.
+
+    Lemma S_a2 a2 : dwf a2 -> dc a2 = m -> dmul o a2 a1 = dzero o (dr a2) n ->
+      dmul o (reduce_mat_cols o a2 vp r) f2 = a2 /\
+      dmul o a2 b2 = reduce_mat_cols o a2 vp r /\
+      dmul o (reduce_mat_cols o a2 vp r) s = dzero o (dr a2) (n - r).
+    Proof.
+      intros W2 H2 H21. split; [|split].
+      - eapply (step_a2_f o L u UL a1 m n r vp vq t sc); stp.
+      - eapply (step_a2_b o L u UL a1 m n r vp vq t sc); stp.
+      - eapply (step_complex_tgt o L u UL a1 m n r vp vq t sc); stp.
+    Qed.
+
+    Ltac cases q :=
+      destruct (Nat.eq_dec q p) as [?Hqp|?Hqp];
+      [|destruct (Nat.eq_dec (S q) p) as [?Hqp0|?Hqp0];
+        [|destruct (Nat.eq_dec q (S p)) as [?HqS|?HqS]]].
+
+    Lemma new_mats q : q < M ->
+      exists d, ms q = Some d /\ dwf d /\ dr d = gn g' (S q) /\ dc d = gn g' q.
+    Proof.
+      intros Hq. destruct SD as (_ & _ & _ & _ & _ & _ & _ & _ & _ & _ & Hsr & Hsc' & Ws & _).
+      destruct a1_facts as (W1 & Hm & Hn).
+      cases q.
+      - subst q. exists s. rewrite gn'_Sp, gn'_p. now csplit; try apply ms_p.
+      - destruct (ms_prev q (eq_sym Hqp0)) as (a0 & Ea0 & W0 & Hr0 & Hc0 & _ & Hms).
+        exists (reduce_mat_rows o a0 vq r). rewrite Hqp0, gn'_p, (gn'_other q) by lia.
+        csplit; [exact Hms|dwfs| |]; autorewrite with ddim; congruence.
+      - subst q. destruct (ms_next_some Hq) as (a2 & Ea2 & W2 & Hc2 & Hr2 & _ & Hms).
+        exists (reduce_mat_cols o a2 vp r). rewrite gn'_Sp, (gn'_other (S (S p))) by lia.
+        csplit; [exact Hms|dwfs| |]; autorewrite with ddim; congruence.
+      - destruct (inv_mats st g I q Hq) as (d & Ed & Wd & Hr & Hc).
+        exists d. rewrite (gn'_other (S q)), (gn'_other q) by lia. rewrite ms_other by assumption. auto.
+    Qed.
+
+    Lemma new_none q : M <= q -> ms q = None.
+    Proof.
+      intros Hq. pose proof pM. destruct (Nat.eq_dec q (S p)) as [->|Hne].
+      - now apply ms_next_none.
+      - rewrite ms_other by lia. now apply (inv_none st g I).
+    Qed.
+
+    Lemma new_cpx q d0 d1 : ms q = Some d0 -> ms (S q) = Some d1 -> dmul o d1 d0 = dzero o (dr d1) (dc d0).
+    Proof.
+      intros E0 E1. destruct SD as (Hf1r & Hf1c & Hb1r & Hb1c & Hf2r & Hf2c & Hb2r & Hb2c & _ & _ & Hsr & Hsc' & Ws & _).
+      destruct a1_facts as (W1 & Hm & Hn).
+      assert (HqM : S q < M).
+      { destruct (Nat.lt_ge_cases (S q) M) as [Hlt|Hge]; [exact Hlt|]. rewrite (new_none (S q) Hge) in E1. discriminate. }
+      cases q.
+      - (* q = p : s, then the reduced outgoing matrix *)
+        subst q. rewrite ms_p in E0. injection E0 as <-.
+        destruct (ms_next_some HqM) as (a2 & Ea2 & W2 & Hc2 & Hr2 & H21 & Hms).
+        rewrite Hms in E1. injection E1 as <-.
+        destruct (S_a2 a2 W2 Hc2 H21) as (_ & _ & H). rewrite H. autorewrite with ddim. now rewrite Hsc'.
+      - (* S q = p : the reduced incoming matrix, then s *)
+        destruct (ms_prev q (eq_sym Hqp0)) as (a0 & Ea0 & W0 & Hr0 & Hc0 & H10 & Hms).
+        rewrite Hms in E0. injection E0 as <-. rewrite Hqp0, ms_p in E1. injection E1 as <-.
+        destruct (S_a0 a0 W0 Hr0 H10) as (_ & _ & H). rewrite H. autorewrite with ddim. now rewrite Hsr.
+      - (* q = S p : the reduced outgoing matrix, then the unchanged one above *)
+        subst q. destruct (ms_next_some ltac:(lia)) as (a2 & Ea2 & W2 & Hc2 & Hr2 & H21 & Hms).
+        rewrite Hms in E0. injection E0 as <-. rewrite ms_other in E1 by lia.
+        destruct (S_a2 a2 W2 Hc2 H21) as (_ & H & _). rewrite <- H.
+        rewrite <- (dmul_assoc o L) by (destruct (inv_mats st g I (S (S p)) HqM) as (d & Ed & _ & _ & Hcd);
+                                        rewrite E1 in Ed; injection Ed as <-; congruence).
+        rewrite (inv_cpx st g I (S p) a2 d1 Ea2 E1). rewrite (dmul_zero_l o L). now autorewrite with ddim.
+      - destruct (Nat.eq_dec (S (S q)) p) as [Hpp|Hpp].
+        + (* S (S q) = p : unchanged, then the reduced incoming matrix *)
+          destruct (ms_prev (S q) (eq_sym Hpp)) as (a0 & Ea0 & W0 & Hr0 & Hc0 & H10 & Hms).
+          rewrite Hms in E1. injection E1 as <-. rewrite ms_other in E0 by lia.
+          destruct (S_a0 a0 W0 Hr0 H10) as (H & _ & _). rewrite <- H.
+          rewrite (dmul_assoc o L) by congruence.
+          rewrite (inv_cpx st g I q d0 a0 E0 Ea0). rewrite (dmul_zero_r o L). now autorewrite with ddim.
+        + rewrite ms_other in E0, E1 by lia. now apply (inv_cpx st g I q).
+    Qed.
+
+    Lemma new_F q : q <= M -> dwf (gF g' q) /\ dr (gF g' q) = gn g' q /\ dc (gF g' q) = N q.
+    Proof.
+      intros Hq. destruct SD as (Hf1r & Hf1c & Hb1r & Hb1c & Hf2r & Hf2c & Hb2r & Hb2c & _).
+      pose proof pM.
+      destruct (Nat.eq_dec q p) as [->|Hqp]; [|destruct (Nat.eq_dec q (S p)) as [->|HqS]].
+      - rewrite gF'_p, gn'_p. destruct (inv_F st g I p Hq) as (W & Hr & Hc). csplit; [dwfs| |]; autorewrite with ddim; congruence.
+      - rewrite gF'_Sp, gn'_Sp. destruct (inv_F st g I (S p) Hq) as (W & Hr & Hc). csplit; [dwfs| |]; autorewrite with ddim; congruence.
+      - rewrite gF'_other, gn'_other by assumption. now apply (inv_F st g I).
+    Qed.
+
+    Lemma new_B q : q <= M -> dwf (gB g' q) /\ dr (gB g' q) = N q /\ dc (gB g' q) = gn g' q.
+    Proof.
+      intros Hq. destruct SD as (Hf1r & Hf1c & Hb1r & Hb1c & Hf2r & Hf2c & Hb2r & Hb2c & _).
+      pose proof pM.
+      destruct (Nat.eq_dec q p) as [->|Hqp]; [|destruct (Nat.eq_dec q (S p)) as [->|HqS]].
+      - rewrite gB'_p, gn'_p. destruct (inv_B st g I p Hq) as (W & Hr & Hc). csplit; [dwfs| |]; autorewrite with ddim; congruence.
+      - rewrite gB'_Sp, gn'_Sp. destruct (inv_B st g I (S p) Hq) as (W & Hr & Hc). csplit; [dwfs| |]; autorewrite with ddim; congruence.
+      - rewrite gB'_other, gn'_other by assumption. now apply (inv_B st g I).
+    Qed.
+
+    Lemma new_FB q : q <= M -> dmul o (gF g' q) (gB g' q) = did o (gn g' q).
+    Proof.
+      intros Hq. destruct SD as (Hf1r & Hf1c & Hb1r & Hb1c & Hf2r & Hf2c & Hb2r & Hb2c & _).
+      destruct a1_facts as (W1 & Hm & Hn). pose proof pM.
+      destruct (Nat.eq_dec q p) as [->|Hqp]; [|destruct (Nat.eq_dec q (S p)) as [->|HqS]].
+      - rewrite gF'_p, gB'_p, gn'_p.
+        destruct (inv_F st g I p Hq) as (WF & HFr & HFc). destruct (inv_B st g I p Hq) as (WB & HBr & HBc).
+        apply (comp_FB o L _ _ _ _ n); try congruence; [unfold step_b1; dwfs|].
+        + rewrite (inv_FB st g I p Hq). now rewrite Hn.
+        + exact S_fb1.
+      - rewrite gF'_Sp, gB'_Sp, gn'_Sp.
+        destruct (inv_F st g I (S p) Hq) as (WF & HFr & HFc). destruct (inv_B st g I (S p) Hq) as (WB & HBr & HBc).
+        apply (comp_FB o L _ _ _ _ m); try congruence; [unfold step_b2; dwfs|].
+        + rewrite (inv_FB st g I (S p) Hq). now rewrite Hm.
+        + exact S_fb2.
+      - rewrite gF'_other, gB'_other, gn'_other by assumption. now apply (inv_FB st g I).
+    Qed.
+
+    Lemma new_Fc q d : ms q = Some d -> dmul o (gF g' (S q)) (D q) = dmul o d (gF g' q).
+    Proof.
+      intros E. destruct SD as (Hf1r & Hf1c & Hb1r & Hb1c & Hf2r & Hf2c & Hb2r & Hb2c & _ & _ & Hsr & Hsc' & Ws & _).
+      destruct a1_facts as (W1 & Hm & Hn). pose proof pM as HpM.
+      assert (HqM : q < M).
+      { destruct (Nat.lt_ge_cases q M) as [Hlt|Hge]; [exact Hlt|]. rewrite (new_none q Hge) in E. discriminate. }
+      destruct (HD q HqM) as (WD & HDr & HDc).
+      cases q.
+      - subst q. rewrite ms_p in E. injection E as <-. rewrite gF'_Sp, gF'_p.
+        destruct (inv_F st g I p ltac:(lia)) as (WF1 & HF1r & HF1c).
+        destruct (inv_F st g I (S p) ltac:(lia)) as (WF2 & HF2r & HF2c).
+        apply (comp_Fc o L _ _ _ a1); try congruence.
+        + exact (inv_Fc st g I p a1 Ha).
+        + exact S_fc.
+      - destruct (ms_prev q (eq_sym Hqp0)) as (a0 & Ea0 & W0 & Hr0 & Hc0 & H10 & Hms).
+        rewrite Hms in E. injection E as <-. rewrite Hqp0, gF'_p, (gF'_other q) by lia.
+        destruct (inv_F st g I p ltac:(lia)) as (WF1 & HF1r & HF1c).
+        destruct (inv_F st g I q ltac:(lia)) as (WF0 & HF0r & HF0c).
+        destruct (S_a0 a0 W0 Hr0 H10) as (H & _ & _).
+        apply (comp_Fc_prev o L _ _ _ a0); try congruence.
+        rewrite <- Hqp0. exact (inv_Fc st g I q a0 Ea0).
+      - subst q. destruct (ms_next_some HqM) as (a2 & Ea2 & W2 & Hc2 & Hr2 & H21 & Hms).
+        rewrite Hms in E. injection E as <-. rewrite gF'_Sp, (gF'_other (S (S p))) by lia.
+        destruct (inv_F st g I (S p) ltac:(lia)) as (WF2 & HF2r & HF2c).
+        destruct (S_a2 a2 W2 Hc2 H21) as (H & _ & _).
+        apply (comp_Fc_next o L _ _ _ a2); try (autorewrite with ddim; congruence); try assumption.
+        exact (inv_Fc st g I (S p) a2 Ea2).
+      - rewrite ms_other in E by assumption. rewrite (gF'_other (S q)), (gF'_other q) by lia.
+        exact (inv_Fc st g I q d E).
+    Qed.
+
+    Lemma new_Bc q d : ms q = Some d -> dmul o (D q) (gB g' q) = dmul o (gB g' (S q)) d.
+    Proof.
+      intros E. destruct SD as (Hf1r & Hf1c & Hb1r & Hb1c & Hf2r & Hf2c & Hb2r & Hb2c & _ & _ & Hsr & Hsc' & Ws & _).
+      destruct a1_facts as (W1 & Hm & Hn). pose proof pM as HpM.
+      assert (HqM : q < M).
+      { destruct (Nat.lt_ge_cases q M) as [Hlt|Hge]; [exact Hlt|]. rewrite (new_none q Hge) in E. discriminate. }
+      destruct (HD q HqM) as (WD & HDr & HDc).
+      cases q.
+      - subst q. rewrite ms_p in E. injection E as <-. rewrite gB'_Sp, gB'_p.
+        destruct (inv_B st g I p ltac:(lia)) as (WB1 & HB1r & HB1c).
+        destruct (inv_B st g I (S p) ltac:(lia)) as (WB2 & HB2r & HB2c).
+        apply (comp_Bc o L _ _ _ a1); try congruence.
+        + exact (inv_Bc st g I p a1 Ha).
+        + exact S_bc.
+      - destruct (ms_prev q (eq_sym Hqp0)) as (a0 & Ea0 & W0 & Hr0 & Hc0 & H10 & Hms).
+        rewrite Hms in E. injection E as <-. rewrite Hqp0, gB'_p, (gB'_other q) by lia.
+        destruct (inv_B st g I p ltac:(lia)) as (WB1 & HB1r & HB1c).
+        destruct (S_a0 a0 W0 Hr0 H10) as (_ & H & _).
+        apply (comp_Bc_prev o L _ _ _ a0); try (autorewrite with ddim; congruence); try assumption.
+        rewrite <- Hqp0. exact (inv_Bc st g I q a0 Ea0).
+      - subst q. destruct (ms_next_some HqM) as (a2 & Ea2 & W2 & Hc2 & Hr2 & H21 & Hms).
+        rewrite Hms in E. injection E as <-. rewrite gB'_Sp, (gB'_other (S (S p))) by lia.
+        destruct (inv_B st g I (S p) ltac:(lia)) as (WB2 & HB2r & HB2c).
+        destruct (inv_B st g I (S (S p)) ltac:(lia)) as (WB3 & HB3r & HB3c).
+        destruct (S_a2 a2 W2 Hc2 H21) as (_ & H & _).
+        apply (comp_Bc_next o L _ _ _ a2); try congruence.
+        exact (inv_Bc st g I (S p) a2 Ea2).
+      - rewrite ms_other in E by assumption. rewrite (gB'_other (S q)), (gB'_other q) by lia.
+        exact (inv_Bc st g I q d E).
+    Qed.
   End StepInv.
 End Invariant.
